@@ -491,4 +491,15 @@ def r6_per_parse_state(a, tier):
     return rep
 
 
-RULES = [r1_action_on_success, r2_lookup_order, r3_failure_conversion, r4_transparency, r5_decorators, r6_per_parse_state]
+def r7_nomemo_gate(a, tier):
+    """the memo store is gated by memoizable (is_memo and not @nomemo): a @nomemo rule runs body and action on every invocation"""
+    from . import c04
+    rep = c04.r2_ownership(a, tier)
+    rep.rule = 'C06.R7'
+    for f in rep.findings:
+        f.rule = 'C06.R7'
+    rep.text = '[= C04.R2] ' + rep.text
+    return rep
+
+
+RULES = [r1_action_on_success, r2_lookup_order, r3_failure_conversion, r4_transparency, r5_decorators, r6_per_parse_state, r7_nomemo_gate]
